@@ -106,7 +106,7 @@ def store_ops(model, payload):
     the metadata names that codec, no other key is affected; has_blob / fetch_blob change nothing."""
     import json
 
-    values = [("text", "héllo\nworld"), ("bytes", b"\x00\xffraw"), ("object", {"a": [1, 2]})]
+    values = [("text", "héllo\nworld"), ("bytes", b"\x00\xffraw"), ("object", {"a": [1, 2]}), ("empty_text", ""), ("empty_bytes", b"")]
     leftovers = ["tmp", "meta_tmp", "meta_of_text", "meta_of_bytes", "complete_text", "complete_bytes", "complete_object"]
     for r in range(0, 3):
         for combo in itertools.combinations(leftovers, r):
@@ -146,7 +146,7 @@ def store_ops(model, payload):
                     if got != v:
                         return {"reproduced": True, "detail": "%s: fetch_blob('k') -> %r" % (tag, got), "inputs": {"leftovers": list(combo), "value": vname}}
                     meta = json.load(open(os.path.join(blobs, "k.meta")))
-                    want = {"text": "local.string", "bytes": "local.bytes", "object": "local.pickle"}[vname]
+                    want = {"text": "local.string", "bytes": "local.bytes", "object": "local.pickle", "empty_text": "local.string", "empty_bytes": "local.bytes"}[vname]
                     if not str(meta.get("protocol", "")).endswith(want.split(".")[1]):
                         return {"reproduced": True, "detail": "%s: metadata names %r, the value was written by the %s codec" % (tag, meta.get("protocol"), want), "inputs": {"leftovers": list(combo), "value": vname}}
                     if st.fetch_blob("other") != "untouched":
@@ -158,4 +158,4 @@ def store_ops(model, payload):
                         return {"reproduced": True, "detail": "%s: another store object reads a different value" % tag, "inputs": {"leftovers": list(combo), "value": vname}}
                 finally:
                     shutil.rmtree(d, ignore_errors=True)
-    return {"reproduced": False, "detail": "store_blob / has_blob / fetch_blob behave as specified from all %d leftover states x 3 value types" % sum(1 for r in range(3) for _ in itertools.combinations(leftovers, r))}
+    return {"reproduced": False, "detail": "store_blob / has_blob / fetch_blob behave as specified from all %d leftover states x 5 value types (incl. empty text and empty bytes)" % sum(1 for r in range(3) for _ in itertools.combinations(leftovers, r))}
